@@ -150,7 +150,7 @@ CB_ANYPRED = ["ne2", "nilcb", "logtrue", "logfalse", "raise2t", "nbpusht"]
 CB_EFFECT = {"logid", "loginc", "loggt1", "logtrue", "logfalse", "raise2", "raise2t", "nbpush", "nbpusht", "nblen",
              "nbidx", "logadd", "pair", "raise2r"}
 
-PRELUDE = ("let r = nil; let ok = true; let f = nil;\n"
+PRELUDE = ("let r = nil; let ok = true; let f = nil; let saved = nil; let savedtxt = nil;\n"
            "let l = nil; let t = nil; let s = nil; let m = nil;\n"
            "let log = []; let nb = [0];\n"
            + "".join("let it%d = nil; " % i for i in range(8)) + "\n"
@@ -163,6 +163,10 @@ RUN_OP = ("ok = true; try { r = f(); } catch e: Error { ok = false; print(\"err 
 RUN_OP_DIRECT = ("ok = true; try { %s } catch e: Error { ok = false; print(\"err \" + e.cls().name()); } "
                  "if ok { print(r); }\n")
 
+
+FRESH_LIST_OPS = ("slice", "sort", "rev")
+FRESH_POKE = ("if ok && r != nil && r.cls().name() == \"List\" { r.push(777); saved = r; savedtxt = \"${r}\"; }\n")
+FRESH_WATCH = ("if saved != nil && \"${saved}\" != savedtxt { print(\"ALIASED: an earlier result changed with the receiver\"); saved = nil; }\n")
 
 # ---------------------------------------------------------------------------------------------
 # rendering a case as a Laythe program
@@ -318,6 +322,12 @@ def render(case):
         else:
             out.append("f = || { %s };\n" % op_body(k, op))
             out.append(RUN_OP)
+        if k == "list":
+            # freshness: a list answered by an operation is a new object.  Writing to it must not show in the receiver
+            # (printed next), and later operations on the receiver must not show in it (an extra line would be printed)
+            if op.split()[0] in FRESH_LIST_OPS:
+                out.append(FRESH_POKE)
+            out.append(FRESH_WATCH)
         out.append(after)
     return "".join(out)
 
